@@ -14,7 +14,8 @@ RULE = ('real LeakyBucket + BandwidthLimitedStream objects (one real thread per 
         'the reader is interrupted and dropped); plus an end-to-end smoke through TransferManager(max_bandwidth=...) with the virtual '
         'clock installed.  Offline oracles over the (virtual time, bytes, stream) read log and the sleep log: O1 bytes in every window '
         '<= 1.25*max*T + B with B = (2*streams+1)*batch; O2 saturated streams <= max*T + B over the run; O3 evenly staggered demand '
-        'below the limit is never made to sleep; O4 every refused read is granted on its first retry and its sleep <= (bytes of reads '
+        'below the limit is never made to sleep, and after a contended burst (with threads preempted right after reading the clock) a '
+        'stream reading a tiny fraction of the limit is no longer delayed once 20 further reads have passed; O4 every refused read is granted on its first retry and its sleep <= (bytes of reads '
         'currently waiting + own)/max + eps; O5 a read of a failed transfer raises that error without sleeping again; O6 = O4 after '
         'abandonments.  non-trivial = at least one throttled read (or, for O3 runs, >= 10 reads); distinct = distinct scenario specs')
 ASSUMPTIONS = ['real wall-clock behaviour (sleep overshoot) is represented only by the lateness parameter',
@@ -60,6 +61,13 @@ def run_sim(spec):
             return r
 
     bucket = LoggingBucket(mx, time_utils=sim)
+    if spec.get('time_yield'):
+        # the clock read becomes a preemption point; the bucket's lock is made baton-aware so that a preempted holder does
+        # not wedge the simulator
+        sim.yield_p = spec['time_yield']
+        sim.yield_until = spec.get('yield_until', float('inf'))
+        sim.yield_delays = spec.get('yield_delays', [0.0])
+        bucket._lock = vtime.SimLock(sim)
     reads = []  # (t_end, amt, stream, n_sleeps, slept_total, t_start)
     raised = {}
     bodies = {}
@@ -162,12 +170,22 @@ def check(spec, r):
             viol.append(V(f'O2: saturated streams moved {got} bytes in {T:.4f}s; max*T+B = {mx * T + B:.0f}', sym='O2-saturated-exceeded', **mech0))
     # O3
     if spec.get('family') == 'under':
-        slept = [s for s in r['sleeps'] if s[1] >= spec.get('under_after', 0.0)]
+        after = spec.get('under_after', 0.0)
+        if spec.get('quiet_from') is not None:
+            # the quiet phase starts once the burst is really over: every read of the other streams and the burst reads of
+            # stream 0 have returned, plus a margin for the moving average to decay
+            # The limiter's moving average can spike by many orders of magnitude when two scheduled releases fall
+            # (almost) together, and then needs one delayed read per factor 5 to recover; only a slow-down that is still
+            # there after 20 further reads is judged ("never ... permanently slows transfers").
+            s0 = sorted(x for x in reads if x[2] == 's0')
+            tail = s0[spec['quiet_from'] + 20:]
+            after = tail[0][5] - 1e-9 if tail else float('inf')
+        slept = [s for s in r['sleeps'] if s[1] >= after and (spec.get('quiet_from') is None or s[0] == 's0')]
         if slept:
             first = slept[0]
             viol.append(V(f'O3: demand stays below the limit (evenly staggered, {spec.get("load", "?")} of max) yet {len(slept)} read(s) were '
                           f'made to sleep (first: stream {first[0]} at t={first[1]:.4f} for {first[2]:.4f}s)', sym='O3-delayed-under-limit',
-                          all_later_refused=len(slept) >= max(1, len([x for x in reads if x[0] >= spec.get('under_after', 0.0)]) // 2), **mech0))
+                          all_later_refused=len(slept) >= max(1, len([x for x in reads if x[0] >= after]) // 2), **mech0))
     # O4 / O6: per refusal, wait bound and granted at first retry
     cons = r['consumes']
     waiting = {}  # token -> amt (refused, not yet granted)
@@ -249,13 +267,24 @@ def gen_cases(tier, seed):
         prof = rng.choice(['default', 'default', 'coarse']) if load <= 0.6 else 'default'
         cases.append({'family': 'under', 'load': load, 'seed': rng.randrange(1 << 30), 'max': mx, 'threshold': min(100, amt), 'streams': streams,
                       'lateness': 'none', 'profile': prof})
+    # default clock: a contended burst in which threads are preempted right after reading the clock (so that another
+    # stream's consume can overtake them), followed by a quiet phase in which one stream reads a tiny fraction of the
+    # limit: whatever happened during the burst, nothing may be delayed in the quiet phase
+    for i in range(40 if quick else 300):
+        S = rng.choice([2, 3, 4, 5])
+        amt = rng.choice([10, 50, 100])
+        streams = [{'start': 0.0, 'ops': [(amt, rng.choice([0.0, 0.01]))] * 8} for k in range(S)]
+        streams[0]['ops'] = streams[0]['ops'] + [(amt, 1.0)] * 30
+        cases.append({'family': 'under', 'quiet_from': 8, 'load': 0.1, 'seed': rng.randrange(1 << 30), 'max': mx, 'threshold': amt,
+                      'streams': streams, 'lateness': 'none', 'profile': 'default', 'time_yield': rng.choice([0.3, 0.6, 0.9]),
+                      'yield_until': 2.5, 'yield_delays': rng.choice([[0.0, 0.001], [0.005, 0.02], [0.05, 0.1]])})
     # coarse clock: a short saturated burst of small reads (several scheduled wake-ups fall into one clock tick), after
     # which a single stream reads a tiny fraction of the limit: nothing may be delayed any more
     for i in range(10 if quick else 60):
         S = rng.choice([3, 4, 5])
         streams = [{'start': 0.0, 'ops': [(10, 0.0)] * 6} for k in range(S)]
-        streams[0]['ops'] = streams[0]['ops'] + [(10, 1.0)] * 12
-        cases.append({'family': 'under', 'under_after': 1.5, 'load': 0.01, 'seed': rng.randrange(1 << 30), 'max': mx, 'threshold': 10,
+        streams[0]['ops'] = streams[0]['ops'] + [(10, 1.0)] * 30
+        cases.append({'family': 'under', 'quiet_from': 6, 'load': 0.01, 'seed': rng.randrange(1 << 30), 'max': mx, 'threshold': 10,
                       'streams': streams, 'lateness': 'none', 'profile': rng.choice(['coarse', 'coarse', 'default'])})
     # abandonment at every wait point
     for i in range(80 if quick else 600):
